@@ -196,3 +196,7 @@ func init() {
 func init() {
 	claim("C12", "H1", "H2", "H3", "H4", "D2")
 }
+
+func init() {
+	claim("C03", "D1", "D2", "D3", "D4", "W3")
+}
